@@ -662,8 +662,24 @@ func c11NullExt(c *engine.Ctx, rule string) {
 		return
 	}
 	c.Analysed(engine.FuncName(encF), engine.FuncName(decF))
-	// encoder: map value nil iff data == nil
-	okE, n := true, 0
+	// nilTest: what the conditions say about the tested payload (interface) resp. map value (pointer) being nil
+	nilTest := func(conds []engine.Cond, wantPtr bool) (isNil, known bool) {
+		for _, cd := range conds {
+			e, ok := cd.AsEq()
+			if !ok || !engine.IsNilConst(e.Y) {
+				continue
+			}
+			_, isPtr := e.X.Type().Underlying().(*types.Pointer)
+			_, isIface := e.X.Type().Underlying().(*types.Interface)
+			if (wantPtr && isPtr) || (!wantPtr && isIface) {
+				isNil, known = e.Equal, true
+			}
+		}
+		return
+	}
+	// encoder: map value nil iff data == nil — every way the stored value comes about is judged with the conditions
+	// it comes about under (the choice may be made in place, in a variable, or in a helper dissolved here)
+	okE, nilWays, refWays := true, 0, 0
 	engine.Instrs(encF, func(in ssa.Instruction) {
 		mu, ok := in.(*ssa.MapUpdate)
 		if !ok {
@@ -672,33 +688,38 @@ func c11NullExt(c *engine.Ctx, rule string) {
 		if _, isPtr := mu.Value.Type().Underlying().(*types.Pointer); !isPtr {
 			return
 		}
-		n++
-		dataNil, known := false, false
-		for _, cd := range engine.InstrConds(mu) {
-			if e, ok := cd.AsEq(); ok && engine.IsNilConst(e.Y) {
-				dataNil, known = e.Equal, true
+		for _, o := range engine.ValueOutcomes(engine.LocalValue(mu.Value), mu.Block()) {
+			dataNil, known := nilTest(o.Conds, false)
+			valNil := engine.IsNilConst(o.V)
+			if valNil {
+				nilWays++
+			} else {
+				refWays++
 			}
-		}
-		if !known || engine.IsNilConst(mu.Value) != dataNil {
-			okE = false
+			if !known || valNil != dataNil {
+				okE = false
+			}
 		}
 	})
-	c.Decide(rule, engine.FuncName(encF), encF.Pos(), okE && n == 2, "a nil payload is stored as a nil map value, anything else by reference", "the encoder does not map a nil extension payload to a nil map value (and only that)")
-	// decoder: Data nil iff map value nil
-	okD, m := true, 0
+	c.Decide(rule, engine.FuncName(encF), encF.Pos(), okE && nilWays >= 1 && refWays >= 1, "a nil payload is stored as a nil map value, anything else by reference", "the encoder does not map a nil extension payload to a nil map value (and only that)")
+	// decoder: Data nil iff map value nil (a payload left at its zero value is nil)
+	okD, derefWays := true, 0
 	for _, st := range engine.StoresTo([]*ssa.Function{decF}, dataF) {
-		m++
-		ptrNil, known := false, false
-		for _, cd := range engine.InstrConds(st) {
-			if e, ok := cd.AsEq(); ok && engine.IsNilConst(e.Y) {
-				ptrNil, known = e.Equal, true
+		for _, o := range engine.ValueOutcomes(engine.LocalValue(st.Val), st.Block()) {
+			ptrNil, known := nilTest(o.Conds, true)
+			if engine.IsNilConst(o.V) {
+				if known && !ptrNil {
+					okD = false // a present value decoded as nil
+				}
+				continue
+			}
+			derefWays++
+			if !known || ptrNil {
+				okD = false
 			}
 		}
-		if !known || engine.IsNilConst(st.Val) != ptrNil {
-			okD = false
-		}
 	}
-	c.Decide(rule, engine.FuncName(decF), decF.Pos(), okD && m == 2, "a nil map value decodes to a nil payload, anything else is dereferenced", "the decoder does not map a nil map value to a nil payload (and only that)")
+	c.Decide(rule, engine.FuncName(decF), decF.Pos(), okD && derefWays >= 1, "a nil map value decodes to a nil payload, anything else is dereferenced", "the decoder does not map a nil map value to a nil payload (and only that)")
 }
 
 func c11CodecKinds(c *engine.Ctx, rule string) {
